@@ -5,6 +5,8 @@
    jump_times_from_nb_of_jumps), tied to the source by the correspondence through process.simulate_one_path(). *)
 From Coq Require Import ZArith QArith List.
 From RV Require Import Base.QB Model.Paths Model.PathsNd Proofs.C15_Paths Proofs.C15_Finer Proofs.C15_Link Proofs.C15_Nd.
+From RV Require Gen.GenTiePaths Proofs.Tie_Paths.
+From RV Require Import Proofs.C15_GenTie Model.CouplingShapeNd Proofs.C15_CouplingShape.
 Import ListNotations.
 Open Scope Q_scope.
 
@@ -164,6 +166,65 @@ Theorem C15_real_jump_times : forall dt us, 0 < dt -> Forall (fun u => 0 < u /\ 
   incr_from 0 offs /\ Forall (fun o => o < dt) offs /\ length offs = length us.
 Proof. exact offsets_of_uniforms_valid. Qed.
 
+(* ------------------------------------------------------------------ generated from the source (wave 6, TIE)
+   chain_over_intervals of rpylib/process/markovchain/markovchain.py is REGENERATED by py2coq on every run (Gen/GenTiePaths.v: the loop over
+   the product intervals with the carried pair (pieces, level), `level + interval_values`, pieces[-1][-1], np.concatenate).  On what
+   MCSimulationWithJumpTimes.simulate_jumps passes to it - per product interval the np.cumsum of the interval's increments (the chain
+   restarted at the origin) - the generated function IS the hand model mc_jump_values the theorems above are about (Proofs/Tie_Paths.v) *)
+Theorem C15_gen_chain_over_intervals_is_model : forall incs,
+  GenTiePaths.chain_over_intervals (map cumsum incs) = mc_jump_values incs.
+Proof. exact Tie_Paths.gen_chain_over_intervals_eq_model. Qed.
+
+(* hence the running-sum statement of C15_jump_times holds for the GENERATED chain_over_intervals: for any number of product intervals
+   (empty ones included) the path it returns is, value by value, the running sum of ALL increments so far (= the Levy simulator's
+   np.cumsum over the concatenated increments), the assembled path starts at 0 and repeats the last value at the maturity *)
+Theorem C15_gen_chain_running_sums : forall incs,
+  let vals := GenTiePaths.chain_over_intervals (map cumsum incs) in
+  Forall2 Qeq vals (levy_jump_values incs)
+  /\ length vals = length (concat incs)
+  /\ (forall k, (k < length vals)%nat -> nth (S k) (assemble_values vals) 0 == qsum (firstn (S k) (concat incs))).
+Proof. exact gen_chain_running_sums. Qed.
+
+(* ------------------------------------------------------------------ wave 6: the coupled copula path on what the REAL __coupling_state returns
+   Model/CouplingShapeNd.v: for a fine state increment `inc` (one integer per coordinate) the fine value is grid[origin + inc] and the coupling
+   state keeps that value on every EVEN coordinate and is a clamped neighbour on its own axis (sign drawn by the uniform: input `sgs`) on every
+   ODD one.  For any dimension d = length axes, any number of product intervals and jumps, any sign vectors: the hypotheses of
+   C15_nd_coupled_path (d-vectors, as many coarse as fine values) HOLD, so fine and coarse live on the same times with equally many columns and
+   every component is the 1-d chain path; and on a coordinate where every state increment is even the coarse path IS the fine path *)
+Theorem C15_nd_coupled_path_real : forall axes org k cap fuel T tms offs raws sgs,
+  let d := length axes in
+  length org = d -> (k < d)%nat -> raws_wf d raws -> signs_for raws sgs ->
+  let fincs := fine_incs axes org raws in
+  let cincs := coarse_incs axes org raws sgs in
+  wf2 d cincs /\ length (nd_jump_values d fincs) = length (nd_jump_values d cincs) /\
+  let '(t, f, c) := nd_coupled_jump_path d cap fuel T (jump_times_of tms offs) fincs cincs in
+  (t, map (comp k) f) = jump_path true cap fuel T tms offs (map (map (comp k)) fincs)
+  /\ (t, map (comp k) c) = jump_path true cap fuel T tms offs (map (map (comp k)) cincs)
+  /\ length f = length c
+  /\ ((forall inc, In inc (concat raws) -> Z.even (nth k inc 0%Z) = true) -> map (comp k) c = map (comp k) f).
+Proof. exact nd_coupled_path_real. Qed.
+
+(* non-vacuity: d = 3, axes of 5 points with the origin in the middle, two product intervals with 2 + 1 jumps; coordinate 1 has even increments
+   only (coarse = fine there), coordinates 0 and 2 move to neighbours; each coupling state is among the outcomes the correspondence accepts *)
+Example C15_coupling_shape_nonvacuous :
+  let axis := [-1; -(1#2); 0; 1#2; 1] in let axes := [axis; axis; axis] in let org := [2; 2; 2]%Z in
+  let raws := [[[1; 2; -1]; [-1; 0; 2]]; [[1; -2; 1]]]%Z in
+  let sgs := [[[true; true; false]; [false; false; true]]; [[true; true; true]]] in
+  raws_wf 3 raws /\ signs_for raws sgs /\ (forall inc, In inc (concat raws) -> Z.even (nth 1 inc 0%Z) = true)
+  /\ fine_incs axes org raws = [[[1#2; 1; -(1#2)]; [-(1#2); 0; 1]]; [[1#2; -1; 1#2]]]
+  /\ coarse_incs axes org raws sgs = [[[1; 1; -1]; [-1; 0; 1]]; [[1; -1; 1]]]
+  /\ coupling_value_possible axes org [1; 2; -1]%Z [1; 1; -1] = true
+  /\ coupling_value_possible axes org [1; 2; -1]%Z [1; 1#2; -1] = false
+  /\ (let '(t, f, c) := nd_coupled_jump_path 3 None 0 2 (jump_times_of [0; 1] [[1#4; 1#2]; [1#4]]) (fine_incs axes org raws) (coarse_incs axes org raws sgs) in
+      (map Qred t, map (map Qred) f, map (map Qred) c))
+     = ([0; 1#4; 1#2; 5#4; 2], [[0; 0; 0]; [1#2; 1; -(1#2)]; [0; 1; 1#2]; [1#2; 0; 1]; [1#2; 0; 1]],
+        [[0; 0; 0]; [1; 1; -1]; [0; 1; 0]; [1; 0; 1]; [1; 0; 1]]).
+Proof.
+  cbv zeta. split; [repeat constructor|]. split; [repeat constructor|].
+  split; [intros inc [<-|[<-|[<-|[]]]]; reflexivity|].
+  repeat split; vm_compute; reflexivity.
+Qed.
+
 (* non-vacuity *)
 Example C15_nonvacuous :
   fixed_jump_path [[1; 2]; []; [4]] = [0; 0 + 3; 0 + 3 + 0; 0 + 3 + 0 + 4]
@@ -171,7 +232,9 @@ Example C15_nonvacuous :
   /\ snd (finer_grid 0 8 (1#2) [1#4; 3#2] [1; 3]) = [1; 1; 1; 3]
   /\ (let p := jump_path true (Some (1#2)) 8 2 [0; 1] [[1#4; 1#2]; [1#4]] [[1; 2]; [4]] in (map Qred (fst p), map Qred (snd p)))
      = ([0; 1#4; 1#2; 1; 5#4; 7#4; 2], [0; 1; 3; 3; 7; 7; 7])
-  /\ (let p := jump_path false (Some (1#2)) 8 1 [0] [[]] [[]] in (map Qred (fst p), map Qred (snd p))) = ([0; 1#2; 1], [0; 0; 0]).
+  /\ (let p := jump_path false (Some (1#2)) 8 1 [0] [[]] [[]] in (map Qred (fst p), map Qred (snd p))) = ([0; 1#2; 1], [0; 0; 0])
+  (* the generated chain_over_intervals on three product intervals, the middle one without a jump: the path keeps running *)
+  /\ map Qred (GenTiePaths.chain_over_intervals (map cumsum [[1; 2]; []; [4; -(1#2)]])) = [1; 3; 7; 13#2].
 Proof. vm_compute. repeat split. Qed.
 
 (* non-vacuity of the d-dimensional statements: d = 3, two product intervals with 2 + 1 jumps, cap 1/2 on T = 2 *)
@@ -203,5 +266,9 @@ Print Assumptions C15_nd_copula_path.
 Print Assumptions C15_nd_coupled_cap.
 Print Assumptions C15_nd_diffusion.
 Print Assumptions C15_real_jump_times.
+Print Assumptions C15_gen_chain_over_intervals_is_model.
+Print Assumptions C15_gen_chain_running_sums.
+Print Assumptions C15_nd_coupled_path_real.
+Print Assumptions C15_coupling_shape_nonvacuous.
 Print Assumptions C15_nonvacuous.
 Print Assumptions C15_nd_nonvacuous.
